@@ -53,10 +53,19 @@ Theorem C09_guards_any_arith (F : Type) (A : Arith F) (g : lz_args F) :
       (forall iv, g_callable g -> g_init g = Some iv -> g_debug g -> i_dtype_ok iv -> g_batch g != i_batch iv ->
          lanczos_tridiag A g = Err ErrBatchShape),
       (forall iv, g_callable g -> g_init g = Some iv -> g_debug g -> i_dtype_ok iv -> g_batch g = i_batch iv ->
-         g_n g != i_n iv -> lanczos_tridiag A g = Err ErrMatrixShape) &
+         ~~ i_onedim iv -> g_n g != i_n iv -> lanczos_tridiag A g = Err ErrMatrixShape) &
       (forall nvec init, g_callable g -> lz_start g = Ok (nvec, init) -> (minn (g_max_iter g) (g_n g) < 2)%N ->
          lanczos_tridiag A g = Err ErrIndex)].
 Proof. exact: lanczos_guards_gen. Qed.
+
+(* 3b. A 1-D init_vecs: IndexError (from init_vecs.size(-2) in debug mode, from torch.norm(.., dim=-2) otherwise).
+       root_inv_decomposition's own argument check (theorem 18) lets a 1-D initial vector of the right length through,
+       so this is what op.root_inv_decomposition(initial_vectors=v) does for a vector v: known finding
+       C09-initial-vector-1d. *)
+Theorem C09_onedim_init_any_arith (F : Type) (A : Arith F) (g : lz_args F) iv :
+  g_callable g -> g_init g = Some iv -> i_onedim iv ->
+  (g_debug g -> i_dtype_ok iv /\ g_batch g = i_batch iv) -> lanczos_tridiag A g = Err ErrIndex.
+Proof. exact: lanczos_onedim_gen. Qed.
 
 (* 4. Orthonormality.  Exact arithmetic, ANY closure (not even linear), every budget / size / batch / number of
       start vectors: for a leading index whose start vector is non-zero and whose betas that were divided by
@@ -151,6 +160,24 @@ Theorem C09_early_exit (F : rcfType) (g : lz_args F) o nvec init :
     let rho_ := col j (Am c *m Qm - Qm *m Tm) in
     dotv rho_ rho_ <= (g_brk g) ^+ 2.
 Proof. exact: lanczos_early_exit_rcf. Qed.
+
+(* 8b. ... so the beta of the classical form (theorem 15) is at most the threshold at an early exit. *)
+Theorem C09_early_exit_beta (F : rcfType) (g : lz_args F) o nvec init :
+  lanczos_tridiag (ArR F) g = Ok o -> lz_start g = Ok (nvec, init) ->
+  let n := g_n g in let C := (prodn (g_batch g) * nvec)%N in let m := o_m o in
+  forall Am : nat -> 'M[F]_n,
+  (forall c X, (c < C)%N -> cv n (g_mm g X) c = Am c *m cv n X c) ->
+  (forall c, (c < C)%N -> (Am c)^T = Am c) ->
+  0 <= g_tol g -> (0 < g_extra g)%N ->
+  (forall c, (c < C)%N -> cv n init c != 0) ->
+  (forall idx, (idx < size (o_T o))%N -> forall j, (j.+1 < m)%N -> mget (ArR F) (nth [::] (o_T o) idx) j j.+1 != 0) ->
+  (m < minn (g_max_iter g) n)%N ->
+  forall idx, (idx < size (o_Q o))%N -> forall j : 'I_m, j.+1 = m ->
+    let c := col_of (prodn (g_batch g)) nvec idx in
+    let Qm := mx_of n m (nth [::] (o_Q o) idx) in let Tm := mx_of m m (nth [::] (o_T o) idx) in
+    let rho_ := col j (Am c *m Qm - Qm *m Tm) in
+    Num.sqrt (dotv rho_ rho_) <= `|g_brk g|.
+Proof. exact: lanczos_early_exit_beta_rcf. Qed.
 
 (* 9. lanczos_tridiag_to_diag: the masked eigenvectors / eigenvalues reproduce the PSD part
       V diag(max(lambda, 0)) V^T  (no hypothesis on (evals, evecs): pure masking lemma). *)
@@ -361,6 +388,14 @@ move=> np0 m1 n1; split.
 - exact: diag_forward_shape_spec.
 - exact: postprocess_shape_spec.
 Qed.
+
+(* 18. root_inv_decomposition's check of initial_vectors.shape (operators/_linear_operator.py lines 2237-2254) raises
+       unless the shape is ( *batch, n, k ) or, for an operator without batch dimensions, the 1-D shape (n). *)
+Theorem C09_root_inv_guard (batch : seq nat) (n : nat) (ivs : seq nat) :
+  root_inv_guard_raises batch n ivs
+  = ~~ (((batch == [::]) && (ivs == [:: n]))
+        || [&& size ivs == (size batch).+2, take (size batch) ivs == batch & nth 0%N ivs (size batch) == n]).
+Proof. exact: root_inv_guard_spec. Qed.
 
 Theorem C09_leading_singleton_batch_refuted :
   root_forward_shape (lanczos_lead 1 [:: 1; 2]%N) 5 5 = [:: 2; 5; 5]%N
